@@ -100,6 +100,8 @@ class CDef:
     pre: str = " "  # spacing around '='
     post: str = " "
     semi: str = ""
+    tail: str = ""  # trailing comment on the same line (may contain quotes)
+    join: bool = False  # the next statement follows on the SAME line after the `;`
 
 
 @dataclass
@@ -173,9 +175,20 @@ def render_file(files: List[CFile], f: CFile) -> str:
     lines = [f"proto {f.proto}", ""]
     for imp in f.imports:
         lines.append(("import " + (imp[1] + " " if imp[1] else "")) + f'"{files[imp[0]].filename}"')
+    joined = False
     for it in f.items:
         if isinstance(it, CDef):
-            lines.append(f"const {it.name}{it.pre}={it.post}{it.text}{it.semi}")
+            text = f"const {it.name}{it.pre}={it.post}{it.text}{it.semi}"
+            if joined:
+                lines[-1] += " " + text
+            else:
+                lines.append(text)
+            lines[-1] += it.tail
+            joined = it.join and not it.tail
+            continue
+        joined = False
+        if isinstance(it, CDef):
+            pass
         elif isinstance(it, COpt):
             lines.append(f"option {it.name} = {it.ref_text}")
         else:
@@ -265,6 +278,14 @@ class _Gen:
         sp = dr(st.integers(0, 5))
         d.pre, d.post = [(" ", " "), ("", ""), ("  ", " "), ("\t", "\t"), (" ", ""), ("", " ")][sp]
         d.semi = ";" if dr(st.integers(0, 4)) == 0 else ""
+        r = dr(st.integers(0, 11))
+        if r == 7:
+            # what follows a value on its line is not part of it: a comment with quotes in it ...
+            d.tail = dr(st.sampled_from([' // a.k.a. "hi"', ' // the "default" one', '// "', " // it's 'x'", ' // ends with a backslash \\', '\t// K = "3" ;', ' // "" ""']))
+        elif r == 5:
+            # ... or the next statement after the optional semicolon
+            d.semi = ";"
+            d.join = True
         return d
 
     def int_const_from(self, f: CFile, e: Any, extra: Sequence[str] = ()) -> CDef:
